@@ -34,6 +34,8 @@ def run(ctx):
         # named twice slipped past -elevrange)
         dscommon.run_family(ctx, "C03K2", fmt="text", variant={"opt_spelling": "repeat"}, nontrivial_fn=lambda o: True,
                             select_fn=lambda o: len(o["opts"]["given"]) == 2 and any(n in o["opts"]["given"] for n in dsreplay_list_options()))
+        # -d with dates in December, March of a non-leap year and on a leap day, on files that store unix times (family C11Sel; after seed C03-j)
+        dscommon.run_family(ctx, "C11Sel", fmt="netcdf", nontrivial_fn=lambda o: True)
         # a NetCDF file whose integer time variable has an unwritten (missing) last entry: a missing coordinate is no initialisation time
         dscommon.run_family(ctx, "C03K1", fmt="netcdf", variant={"nc_pad_time": True, "nc_missing": "fill"}, nontrivial_fn=lambda o: bool(o["opts"]["given"]))
     else:
@@ -45,5 +47,7 @@ def run(ctx):
         dscommon.run_family(ctx, "C03K2", fmt="netcdf", variant={"lead_scale": 0.125}, nontrivial_fn=lambda o: bool(o["opts"]["given"]))
         dscommon.run_family(ctx, "C03K3", fmt="text", variant={"opt_spelling": "repeat"}, nontrivial_fn=lambda o: True, timeout_s=1800,
                             select_fn=lambda o: len(o["opts"]["given"]) >= 2 and any(n in o["opts"]["given"] for n in dsreplay_list_options()))
+        dscommon.run_family(ctx, "C11Sel", fmt="netcdf", nontrivial_fn=lambda o: True)
+        dscommon.run_family(ctx, "C11Sel", fmt="text", nontrivial_fn=lambda o: True, cli_lists=10)
         ctx.exhaustive = True
     par.clean_workdirs()
